@@ -72,7 +72,9 @@ def handle (j : Json) : Json :=
       | "read" | "pread64" => .read (objOf inside)
       | "write" => .write (objOf inside)
       | "fsync" => .fsync (objOf inside)
-      | "rename" | "renameat" | "renameat2" => if (inside.splitOn "->lock").length > 1 then .renameLock else .rename
+      | "rename" | "renameat" | "renameat2" => if (inside.splitOn "->lock").length > 1 then .renameLock
+                                                else if (inside.splitOn "log->away").length > 1 then .unlink .log      -- the log's name taken away
+                                                else .rename
       | "ftruncate" => .truncate (objOf inside)
       | "unlink" | "unlinkat" => .unlink (objOf inside)
       | "close" => .close (objOf inside)
